@@ -1114,3 +1114,31 @@ multi('C14', 'proposals-in-dict-keyed-by-position', 'benign', [
     (PC, _PWM_COUNT_OLD, """        pwm_values = {f'{position}:{rule.__class__.__name__}': rule.apply() for position, rule in enumerate(self.__rules)}
         applied_rules = {name: value for name, value in pwm_values.items() if value is not None}
         if len(applied_rules) >= 2:"""), (PC, _PWM_PICK_OLD, _PWM_PICK_NEW)])
+_GE_OLD = """            return self.value - other.to(
+                self.unit
+            ).value >= -COMPARISON_TOLERANCE
+"""
+multi('C05', 'ge-by-isclose-default-relative-tolerance', 'mutant', [
+    (UB, "from math import fabs\n", "from math import fabs, isclose\n"),
+    (UB, _GE_OLD, """            other_value = other.to(self.unit).value
+            return self.value > other_value or isclose(self.value, other_value, abs_tol=COMPARISON_TOLERANCE)
+""")], 'C05.cmp')
+multi('C05', 'ge-by-isclose-absolute-only', 'benign', [
+    (UB, "from math import fabs\n", "from math import fabs, isclose\n"),
+    (UB, _GE_OLD, """            other_value = other.to(self.unit).value
+            return self.value > other_value or isclose(self.value, other_value, rel_tol=0.0, abs_tol=COMPARISON_TOLERANCE)
+""")])
+mutant('C14', 'range-guard-by-abs-greater-lets-nan-in', DC, "        if not (-1 <= pwm <= 1):", "        if abs(pwm) > 1:", 'C14.range')
+benign('C14', 'range-guard-by-not-abs-le', DC, "        if not (-1 <= pwm <= 1):", "        if not abs(pwm) <= 1:")
+benign('C19', 'range-guard-by-not-abs-le', DC, "        if not (-1 <= pwm <= 1):", "        if not abs(pwm) <= 1:")
+multi('C20', 'scan-fused-into-the-chain-walk', 'benign', [
+    (PT, "        while elements[-1].drives is not None:\n            elements.append(elements[-1].drives)\n",
+         "        self_locking = False\n        element = motor\n        while element.drives is not None:\n            element = element.drives\n"
+         "            elements.append(element)\n            if isinstance(element, WormGear) and element.self_locking:\n                self_locking = True\n"),
+    (PT, SCAN_OLD, "        self.__self_locking = self_locking\n")])
+multi('C20', 'scan-fused-into-the-chain-walk-one-step-behind', 'mutant', [
+    (PT, "        while elements[-1].drives is not None:\n            elements.append(elements[-1].drives)\n",
+         "        self_locking = False\n        element = motor\n        while element.drives is not None:\n"
+         "            if isinstance(element, WormGear) and element.self_locking:\n                self_locking = True\n"
+         "            element = element.drives\n            elements.append(element)\n"),
+    (PT, SCAN_OLD, "        self.__self_locking = self_locking\n")], 'C20.locking')
